@@ -160,6 +160,9 @@ pub const UNREACHABLE: &[&str] = &[
     // implements neither trait, so no Kernel value can be serialised (a compile error, not a
     // run-time behaviour); kernels are covered by C20 scenarios only
     "KernelBase",
+    // linfa-logistic: `pub struct` inside the private module `argmin_param`, never re-exported
+    // and never part of a fitted model or parameter set (solver-internal wrapper)
+    "ArgminParam",
 ];
 
 pub fn repo_root() -> std::path::PathBuf {
@@ -316,8 +319,8 @@ pub fn check(tier: &str, seed: u64, only: Option<&str>) -> i32 {
     }
     let stale: Vec<&&str> = covered.iter().filter(|t| !pub_types.contains(**t) && !private_types.contains(**t)).collect();
     // ---- plan
-    let instances = if thorough { 12 } else { 2 };
-    let pairs = if thorough { 6 } else { 2 };
+    let instances = if thorough { 20 } else { 4 };
+    let pairs = if thorough { 8 } else { 3 };
     let mut jobs = Vec::new();
     let mut meta = Vec::new();
     for (ei, e) in reg.c19.iter().enumerate() {
